@@ -450,6 +450,44 @@ func c19Fidelity(c *Ctx) {
 	})
 	var p *flags.Parser
 	var perr error
+	earlier := false
+	if c.K%4 == 1 {
+		// an earlier parser over the same declaration whose model the program edited in place (the lists behind
+		// Default, Choices, OptionalValue and Aliases are its own): the next parser reads the declaration, not the
+		// leftovers of the first one
+		earlier = true
+		if pi := safely(func() {
+			p0 := flags.NewParser(reflect.New(rt).Interface(), flags.None)
+			p0.ParseArgs([]string{"cmd" + fmt.Sprint(cid)})
+			var scribble func(cm *flags.Command)
+			scribbleGroup := func(g *flags.Group) {}
+			scribbleGroup = func(g *flags.Group) {
+				for _, o := range g.Options() {
+					for _, l := range [][]string{o.Default, o.Choices, o.OptionalValue} {
+						for i := range l {
+							l[i] = "zz-edited-on-the-earlier-parser"
+						}
+					}
+				}
+				for _, sg := range g.Groups() {
+					scribbleGroup(sg)
+				}
+			}
+			scribble = func(cm *flags.Command) {
+				for i := range cm.Aliases {
+					cm.Aliases[i] = "zz-edited-alias"
+				}
+				scribbleGroup(cm.Group)
+				for _, sc := range cm.Commands() {
+					scribble(sc)
+				}
+			}
+			scribble(p0.Command)
+		}); pi != nil {
+			c.Violate("panic:"+panicSite(pi.Stack), "building / editing the earlier parser panicked: %s", pi.Value)
+			return
+		}
+	}
 	pi := safely(func() {
 		p = flags.NewParser(reflect.New(rt).Interface(), flags.None)
 		_, perr = p.ParseArgs([]string{"cmd" + fmt.Sprint(cid)})
@@ -605,6 +643,9 @@ func c19Fidelity(c *Ctx) {
 	cell := "fidelity"
 	if withRec {
 		cell = "fidelity/self-referential-field"
+	}
+	if earlier {
+		cell += "/after-an-edited-earlier-parser"
 	}
 	// the model stays faithful when the program extends it after looking something up: the finders see a group
 	// added below the top level and a changed namespace
